@@ -398,7 +398,9 @@ func TestPropExportImport(t *testing.T) {
 				if rapid.IntRange(0, 5).Draw(t, "external") == 0 {
 					target = "holder"
 				}
-				n.points = append(n.points, data.Point{Type: data.PointTypeNodeID, Key: strconv.Itoa(crossRefs), Text: target, Time: g.tick()})
+				// a reference may be a deleted (1, 3) or restored (2) one: it still names a node of the tree
+				n.points = append(n.points, data.Point{Type: data.PointTypeNodeID, Key: strconv.Itoa(crossRefs), Text: target, Time: g.tick(),
+					Tombstone: rapid.SampledFrom([]int{0, 0, 0, 1, 2, 3}).Draw(t, "refTomb")})
 				crossRefs++
 			}
 		}
